@@ -313,7 +313,7 @@ def main(chk):
         "network u = prefix | spread(u) (ipnets.nets + ghost NETADDR)",
     ]
     return chk.finish(
-        "proof",
+        "other",
         "Deductive: every obligation generated from the current source of Wildcard._prefixlen_idx, _ncw_bits, _create_ncwb (list level), _create_prefix and the "
         "network generator behind ipnets() (word level: both loops by invariant, no exception possible) is discharged; lemmas L5.exact/disjoint/nohost/single/count "
         "and L13.closed in 32-bit arithmetic; memo coherence as a frame obligation. Bounded stand-in (labelled): real Wildcard objects on a mask family and all short "
